@@ -462,6 +462,7 @@ def opFrame (args : List String) : String :=
       let str (l : List Frames.W) : String := String.ofList (l.map Frames.W.toChar)
       match op, rest with
       | "enc", _ => s!"nil {str (Frames.encodeFrame d p)} guards=ok"
+      | "encw", _ => s!"nil {str (Frames.encodeFrame d p)} guards=ok"
       | "ver", _ => s!"nil {str (Frames.verifyFrame d p)} guards=ok"
       | "rec", [modes, Es, reqs, capm] =>
         (match parseMode modes (parseList reqs) d p with
@@ -611,9 +612,11 @@ def step (line : String) : String :=
   | "allocchk" :: args => opAllocChk args
   | "api" :: args => opApi args
   | "new" :: args => opNew args
+  | "opts" :: args => opOpts args
   | "newstream" :: args => opNewStream args
   | "conc" :: args => opHist args
   | "concread" :: _ => "ok"
+  | "concver" :: _ => "ok"
   | "concstream" :: _ => "ok"
   | "sencode" :: args => opSEncode args
   | "sverify" :: args => opSVerify args
